@@ -1,5 +1,6 @@
 import CCT.Props.C13
 import CCT.Props.C09
+import CCT.Lemmas.HeapLemmas
 /-!
 # C12 — verification is pure  (partial: thread switches inside CPython, import order and stdout are run, not modelled)
 
@@ -44,5 +45,81 @@ theorem verifier_is_function_of_values (C : CryptoFns) (e e' k t : J) (g : Bool)
 
 /-- wrapping returns a fresh envelope whose payload is (a copy of) the value: nothing of the result depends on anything but the value -/
 theorem wrap_result_independent (v : J) : wrapAsSignable (.j v) = .ok (.obj [(ps! "signatures", .obj []), (ps! "signed", v)]) := rfl
+
+-- heap level: object identity and aliasing (Model/Heap.lean) -----------------------------------------------------------
+
+/-- **deep copy reads back the same value** -/
+theorem deepcopy_value (h : Heap) (v : J) : deref (alloc h v).1 v.size (alloc h v).2 = some v :=
+  (alloc_spec h v).2.2.2 _ _ (fun _ _ _ => rfl) (Nat.le_refl _)
+
+/-- **deep copy is fresh**: the copy's root is a new object and no existing object is modified by copying -/
+theorem deepcopy_fresh (h : Heap) (v : J) :
+    h.next ≤ (alloc h v).2 ∧ ∀ j, j < h.next → (alloc h v).1.get j = h.get j :=
+  ⟨(alloc_spec h v).1, (alloc_spec h v).2.2.1⟩
+
+theorem alloc_next_le (h : Heap) (v : J) : h.next ≤ (alloc h v).1.next := by
+  have := alloc_spec h v; omega
+
+/-- **later changes to the original never affect the copy**: after any sequence of in-place modifications of objects that existed before
+the copy was made (everything reachable from the original is such an object), the copy still reads the same value -/
+theorem copy_unaffected_by_old_writes (h : Heap) (v : J) (ws : List (Nat × Obj)) (hws : ∀ w ∈ ws, w.1 < h.next) :
+    deref (applyWrites (alloc h v).1 ws) v.size (alloc h v).2 = some v := by
+  refine (alloc_spec h v).2.2.2 _ _ ?_ (Nat.le_refl _)
+  intro j h1 _
+  exact applyWrites_get ws _ j (fun w hw e => by have := hws w hw; omega)
+
+/-- **later changes to the copy never affect the original**: after any sequence of in-place modifications of objects created by the copy,
+every tree of the (closed) old heap reads exactly as before -/
+theorem old_unaffected_by_copy_writes (h : Heap) (hc : Closed h) (v : J) (ws : List (Nat × Obj)) (hws : ∀ w ∈ ws, h.next ≤ w.1)
+    (r : Nat) (hr : r < h.next) (f : Nat) : deref (applyWrites (alloc h v).1 ws) f r = deref h f r := by
+  refine deref_agree_below h _ h.next (fun i o ho _ => (hc i o ho).2) ?_ f r hr
+  intro j hj
+  rw [applyWrites_get ws _ j (fun w hw e => by have := hws w hw; omega)]
+  exact (alloc_spec h v).2.2.1 j hj
+
+/-- `wrap_as_signable(obj)` on the heap: the envelope's payload reads as the value of `obj` at wrapping time, whatever is later done to
+`obj` or to anything else that existed before -/
+theorem wrap_isolated (h : Heap) (depth : Nat) (obj : Nat) (v : J) (hv : deref h depth obj = some v) (ws : List (Nat × Obj))
+    (hws : ∀ w ∈ ws, w.1 < h.next) :
+    ∃ h' env signed sigs, wrapOnHeap h depth obj = some (h', env) ∧
+      (applyWrites h' ws).get env = some (.dict [(ps! "signatures", sigs), (ps! "signed", signed)]) ∧
+      deref (applyWrites h' ws) v.size signed = some v := by
+  have a := alloc_spec h v
+  simp only [wrapOnHeap, hv]
+  generalize hx : alloc h v = ax at a
+  obtain ⟨h1, signed⟩ := ax
+  dsimp only at a ⊢
+  obtain ⟨a1, a2, a3, a4⟩ := a
+  refine ⟨_, _, signed, h1.next, rfl, ?_, ?_⟩
+  · rw [applyWrites_get ws _ _ (fun w hw e => by have := hws w hw; simp [Heap.push] at e; omega)]
+    simp [Heap.push]
+  · refine a4 _ _ ?_ (Nat.le_refl _)
+    intro j l1 l2
+    rw [applyWrites_get ws _ j (fun w hw e => by have := hws w hw; omega)]
+    have n1 : j ≠ h1.next + 1 := by omega
+    have n2 : j ≠ h1.next := by omega
+    simp [Heap.push, n1, n2]
+
+/-- why the copy must be deep: with a *shallow* copy, modifying a nested container of the original changes what the copy reads -/
+def demoHeap : Heap :=
+  { get := fun i => if i = 0 then some (.atom (.int 1)) else if i = 1 then some (.list [0]) else if i = 2 then some (.dict [(ps! "a", 1)]) else none, next := 3 }
+
+example : deref (shallowCopy demoHeap 2).1 5 (shallowCopy demoHeap 2).2 = some (.obj [(ps! "a", .arr [.int 1])]) := by
+  simp [deref, derefList, derefMembers, shallowCopy, demoHeap, Heap.push, Heap.write, Heap.set, alloc, allocList, allocMembers]
+example : deref ((shallowCopy demoHeap 2).1.write 1 (.list [])) 5 (shallowCopy demoHeap 2).2 = some (.obj [(ps! "a", .arr [])]) := by
+  simp [deref, derefList, derefMembers, shallowCopy, demoHeap, Heap.push, Heap.write, Heap.set, alloc, allocList, allocMembers]
+example : deref ((alloc demoHeap (.obj [(ps! "a", .arr [.int 1])])).1.write 1 (.list [])) 5 (alloc demoHeap (.obj [(ps! "a", .arr [.int 1])])).2
+    = some (.obj [(ps! "a", .arr [.int 1])]) := by
+  simp [deref, derefList, derefMembers, shallowCopy, demoHeap, Heap.push, Heap.write, Heap.set, alloc, allocList, allocMembers]
+
+/-- a validator / verifier call on heap objects: read the argument trees, evaluate — the heap is returned unchanged (the model's API has no
+write operation at all; the correspondence check snapshots every argument of the real code before and after each call) -/
+def apiCall (C : CryptoFns) (h : Heap) (depth : Nat) (env keys thr : Nat) (gpg : Bool) : Heap × Option (Res Unit) :=
+  (h, match deref h depth env, deref h depth keys, deref h depth thr with
+      | some e, some k, some t => some (verifySignableJ C e k t gpg)
+      | _, _, _ => none)
+
+theorem verifiers_frame (C : CryptoFns) (h : Heap) (depth env keys thr : Nat) (gpg : Bool) : (apiCall C h depth env keys thr gpg).1 = h := rfl
+
 
 end CCT.C12
